@@ -15,6 +15,8 @@ import DimModel.Proofs.C15
 import DimModel.Lib.HeapX
 import DimModel.Proofs.C15X
 import DimModel.Proofs.C15XWF
+import DimModel.Proofs.C15T
+import DimModel.Proofs.C15Flat
 namespace DimModel
 namespace Heap
 
@@ -352,6 +354,116 @@ theorem write_through_view (h : H) (r r' v : Ref) (w sh : List Nat) (ax : List R
     (hb : h[v]? = some (.buf cells)) (hc : c < cells.length) (hp' : w'[p']? = some c) (hp : w[p]? = some c) :
     ∃ o, obsArr (mutate h r' (.setVal p' x)) r = some o ∧ o.values[p]? = some x :=
   write_through_view_aux x hr hr' hb hc hp' hp
+
+/-- THE INDEX MAP OF A TRANSPOSE (`transpose(perm)`; `swapaxes`, `rollaxis`, `T` of rank ≥ 1 are transposes, see below):
+the result is an array over the SAME buffer, with the permuted shape, whose view at the row-major position of every
+in-range multi-index `j` IS the operand's view at the row-major position of the un-permuted multi-index
+(`unperm n perm j = [j[perm.index d] for d in range(n)]`) -/
+theorem transpose_view_cell (h h' : H) (r r' v : Ref) (w sh : List Nat) (ax : List Ref) (t : Ref) (perm : List Nat)
+    (hx : h[r]? = some (.arr v w sh ax t)) (hop : transpose h r perm = some (h', r')) :
+    ∃ w' ax' t', h'[r']? = some (.arr v w' (perm.map fun k => sh.getD k 0) ax' t') ∧
+      ∀ j, InRange j (perm.map fun k => sh.getD k 0) →
+        w'[ravelN (perm.map fun k => sh.getD k 0) j]? = some (w.getD (ravelN sh (unperm sh.length perm j)) 0) :=
+  transpose_view_cell_aux hx hop
+
+/-- `a.swapaxes(a, b)` IS `a.transpose(swapPerm n a b)` (so `transpose_view_cell` / `write_through_transpose` apply) -/
+theorem swapaxes_is_transpose (h : H) (r v : Ref) (w sh : List Nat) (ax : List Ref) (t : Ref) (a b : Nat) (res : H × Ref)
+    (hx : h[r]? = some (.arr v w sh ax t)) (hop : swapaxes h r a b = some res) :
+    transpose h r (swapPerm sh.length a b) = some res := swapaxes_eq_transpose hx hop
+
+/-- `a.rollaxis(d)` IS `a.transpose([d] + [the others in order])` -/
+theorem rollaxis_is_transpose (h : H) (r v : Ref) (w sh : List Nat) (ax : List Ref) (t : Ref) (d : Nat) (res : H × Ref)
+    (hx : h[r]? = some (.arr v w sh ax t)) (hop : rollaxis h r d = some res) :
+    transpose h r (d :: (List.range sh.length).filter (· != d)) = some res := rollaxis_eq_transpose hx hop
+
+/-- `a.T` of rank 1 / 2 IS the transpose with the reversed order (rank 0 returns the operand itself: `tT_rank0_same`) -/
+theorem tT_is_transpose (h : H) (r v : Ref) (w sh : List Nat) (ax : List Ref) (t : Ref) (res : H × Ref)
+    (hx : h[r]? = some (.arr v w sh ax t)) (hrk : sh.length ≠ 0) (hop : tT h r = some res) :
+    transpose h r (List.range sh.length).reverse = some res := tT_eq_transpose hx hrk hop
+
+/-- WRITE-THROUGH A TRANSPOSE without a hypothesis on the viewed cell: for a well-shaped operand (as many view entries
+as the shape has cells, all inside the buffer), a value written through the result at the position of ANY in-range
+multi-index `j` is read by the operand at the position of the un-permuted multi-index -/
+theorem write_through_transpose (h h' : H) (r r' v : Ref) (w sh : List Nat) (ax : List Ref) (t : Ref)
+    (perm : List Nat) (cells : List Int)
+    (hx : h[r]? = some (.arr v w sh ax t)) (hb : h[v]? = some (.buf cells))
+    (hwl : w.length = prodN sh) (hwb : ∀ c ∈ w, c < cells.length)
+    (hop : transpose h r perm = some (h', r')) (j : List Nat) (hj : InRange j (perm.map fun k => sh.getD k 0)) (x : Int) :
+    ∃ o, obsArr (mutate h' r' (.setVal (ravelN (perm.map fun k => sh.getD k 0) j) x)) r = some o ∧
+      o.values[ravelN sh (unperm sh.length perm j)]? = some x :=
+  write_through_transpose_aux hx hb hwl hwb hop j hj x
+
+/-- ... through `swapaxes` -/
+theorem write_through_swapaxes (h h' : H) (r r' v : Ref) (w sh : List Nat) (ax : List Ref) (t : Ref)
+    (a b : Nat) (cells : List Int)
+    (hx : h[r]? = some (.arr v w sh ax t)) (hb : h[v]? = some (.buf cells))
+    (hwl : w.length = prodN sh) (hwb : ∀ c ∈ w, c < cells.length)
+    (hop : swapaxes h r a b = some (h', r')) (j : List Nat)
+    (hj : InRange j ((swapPerm sh.length a b).map fun k => sh.getD k 0)) (x : Int) :
+    ∃ o, obsArr (mutate h' r' (.setVal (ravelN ((swapPerm sh.length a b).map fun k => sh.getD k 0) j) x)) r = some o ∧
+      o.values[ravelN sh (unperm sh.length (swapPerm sh.length a b) j)]? = some x :=
+  write_through_transpose_aux hx hb hwl hwb (swapaxes_eq_transpose hx hop) j hj x
+
+/-- ... through `rollaxis` -/
+theorem write_through_rollaxis (h h' : H) (r r' v : Ref) (w sh : List Nat) (ax : List Ref) (t : Ref)
+    (d : Nat) (cells : List Int)
+    (hx : h[r]? = some (.arr v w sh ax t)) (hb : h[v]? = some (.buf cells))
+    (hwl : w.length = prodN sh) (hwb : ∀ c ∈ w, c < cells.length)
+    (hop : rollaxis h r d = some (h', r')) (j : List Nat)
+    (hj : InRange j ((d :: (List.range sh.length).filter (· != d)).map fun k => sh.getD k 0)) (x : Int) :
+    ∃ o, obsArr (mutate h' r' (.setVal
+        (ravelN ((d :: (List.range sh.length).filter (· != d)).map fun k => sh.getD k 0) j) x)) r = some o ∧
+      o.values[ravelN sh (unperm sh.length (d :: (List.range sh.length).filter (· != d)) j)]? = some x :=
+  write_through_transpose_aux hx hb hwl hwb (rollaxis_eq_transpose hx hop) j hj x
+
+/-- ... through `T` (rank 1 / 2) -/
+theorem write_through_tT (h h' : H) (r r' v : Ref) (w sh : List Nat) (ax : List Ref) (t : Ref) (cells : List Int)
+    (hx : h[r]? = some (.arr v w sh ax t)) (hb : h[v]? = some (.buf cells))
+    (hwl : w.length = prodN sh) (hwb : ∀ c ∈ w, c < cells.length) (hrk : sh.length ≠ 0)
+    (hop : tT h r = some (h', r')) (j : List Nat)
+    (hj : InRange j ((List.range sh.length).reverse.map fun k => sh.getD k 0)) (x : Int) :
+    ∃ o, obsArr (mutate h' r' (.setVal (ravelN ((List.range sh.length).reverse.map fun k => sh.getD k 0) j) x)) r = some o ∧
+      o.values[ravelN sh (unperm sh.length (List.range sh.length).reverse j)]? = some x :=
+  write_through_transpose_aux hx hb hwl hwb (tT_eq_transpose hx hrk hop) j hj x
+
+/-- the hypothesis "well-shaped operand" of `write_through_transpose` is needed: an array object whose view is shorter
+than its shape (no constructor of the model makes one) has no position 1 = `ravelN [2] [1]` to read the value at -/
+theorem write_through_transpose_counterexample :
+    let h : H := [.buf [1, 2], .dict [], .arr 0 [0] [2] [] 1]
+    ∃ h' r', transpose h 2 [0] = some (h', r') ∧ InRange [1] [2] ∧
+      (obsArr (mutate h' r' (.setVal (ravelN [2] [1]) 9)) 2).map (·.values) = some [9] :=
+  ⟨_, _, rfl, .cons (by decide) .nil, rfl⟩
+
+/-- the hypotheses of `write_through_transpose` are satisfiable: a 2 x 3 array, `transpose([1, 0])`, `j = (2, 1)` of the
+result is `(1, 2)` of the operand: position 5 of the result's 3 x 2 enumeration, position 5 of the operand's ... -/
+example : unperm 2 [1, 0] [2, 1] = [1, 2] ∧ InRange [2, 1] ([1, 0].map fun k => [2, 3].getD k 0) ∧
+    ravelN [3, 2] [2, 1] = 5 ∧ ravelN [2, 3] [1, 2] = 5 ∧ ravelN [3, 2] [1, 0] = 2 ∧ ravelN [2, 3] (unperm 2 [1, 0] [1, 0]) = 1 :=
+  ⟨rfl, .cons (by decide) (.cons (by decide) .nil), rfl, rfl, rfl, rfl⟩
+
+/-- FLATTEN: VIEW IFF CONTIGUOUS.  `b = a.flatten()` of a non-empty array: `b` is a rank-1 array of `a`'s size, and
+np.shares_memory(b.values, a.values) (= same buffer object and overlapping views) holds exactly when `a`'s index map is
+the identity enumeration of a block of its buffer (a C-contiguous array); otherwise the values are a NEW buffer -/
+theorem flatten_shares_iff_contiguous (h h' : H) (r r' v : Ref) (w sh : List Nat) (ax : List Ref) (t : Ref)
+    (hx : h[r]? = some (.arr v w sh ax t)) (hv : v < h.length) (hne : w ≠ [])
+    (hop : flattenAll h r = some (h', r')) :
+    ∃ v' w' ax' t', h'[r']? = some (.arr v' w' [w.length] ax' t') ∧ ((v == v' && overlap w w') = contiguous w) :=
+  flatten_shares_aux hx hv hne hop
+
+/-- the hypothesis "non-empty" is needed: an empty array is contiguous and shares nothing (np.shares_memory is False) -/
+theorem flatten_shares_iff_contiguous_counterexample :
+    flattenObs (xrun St.init [.base (.create [0, 2] [] [("x", [], []), ("y", [0, 1], [])] [])]) 0 = some (false, [0], [], "x,y")
+      ∧ contiguous [] = true := by
+  exact ⟨rfl, rfl⟩
+
+/-- on concrete histories: `a.flatten()` is a view, `a.T.flatten()` a copy (of the transposed values), the transpose of a
+1 x 3 array is still contiguous and flattens to a view -/
+example : flattenObs (xrun St.init [.base (.create [2, 3] [1, 2, 3, 4, 5, 6] [("x", [5, 3], []), ("y", [0, 1, 2], [])] []), .tT 0]) 0
+      = some (true, [6], [1, 2, 3, 4, 5, 6], "x,y") ∧
+    flattenObs (xrun St.init [.base (.create [2, 3] [1, 2, 3, 4, 5, 6] [("x", [5, 3], []), ("y", [0, 1, 2], [])] []), .tT 0]) 1
+      = some (false, [6], [1, 4, 2, 5, 3, 6], "y,x") ∧
+    flattenObs (xrun St.init [.base (.create [1, 3] [1, 2, 3] [("x", [5], []), ("y", [0, 1, 2], [])] []), .tT 0]) 1
+      = some (true, [3], [1, 2, 3], "y,x") := by
+  exact ⟨rfl, rfl, rfl⟩
 
 /-- the hypothesis "same buffer" of `write_through_view` is needed: through a position slice (a copy) nothing shows -/
 theorem write_through_view_counterexample :
